@@ -609,6 +609,7 @@ def check_force_collection(run, rng):
 
     top = os.getcwd()
     status = {}
+    convention = {}
     TOL = 2e-8  # eV/Angstrom; FORCE_SETS carries 10 decimals in the calculator's force unit
     for layout in ("grouped", "interleaved"):
         cell, meta = U.random_cell(rng, natom=3, layout=layout, outside=False)
@@ -677,27 +678,25 @@ def check_force_collection(run, rng):
                     continue
                 ds = parse_FORCE_SETS(filename="FORCE_SETS")
                 got = [np.array(d["forces"]) * out_unit for d in ds["first_atoms"]]
+                # two accepted conventions: drift-corrected F - mean(F), or the raw forces F (exactly one of them, atom by atom)
                 err = max(np.abs(g - w).max() for g, w in zip(got, want))
-                if err <= TOL:
-                    status.setdefault(c, set()).add("ok")
-                    continue
-                by_file = max(np.abs(g - w[order]).max() for g, w in zip(got, want))
                 raw = max(np.abs(g - p).max() for g, p in zip(got, phys))
+                if err <= TOL or raw <= TOL:
+                    status.setdefault(c, set()).add("ok")
+                    convention.setdefault(c, set()).add("drift-corrected F - mean(F)" if err <= TOL else "raw F (net force kept)")
+                    continue
+                by_file = min(max(np.abs(g - w[order]).max() for g, w in zip(got, want)),
+                              max(np.abs(g - p[order]).max() for g, p in zip(got, phys)))
                 if regrouped and by_file <= TOL:
                     if c in FO.NO_POSITIONS:
                         run.count("regrouped output without positions: pairing by file order not judged (%s)" % c, section="oracle")
                         continue
                     run.violation("create_FORCE_SETS", "%s-forces-paired-by-file-order" % c,
-                                  "%s: the structure file groups the atoms by species (order %r), the output follows it, FORCE_SETS pairs the forces "
-                                  "with the supercell order without checking or refusing" % (c, order), case)
+                                  "%s, supercell with interleaved species: the structure file groups the atoms by species (order %r), the output follows it, "
+                                  "FORCE_SETS pairs the forces with the supercell order without checking or refusing" % (c, order), case)
                     continue
-                if raw <= TOL:
-                    status.setdefault(c, set()).add("net-force-kept")
-                    run.violation("create_FORCE_SETS", "%s-net-force-kept" % c,
-                                  "%s: forces arrive atom by atom in the right unit, but the net force %r eV/A is not removed whereas the other "
-                                  "interfaces' parsers remove it: the same physical forces give different force sets" % (c, phys[0].mean(axis=0).round(4).tolist()), case)
-                    continue
-                what = "%s: collected forces differ from F - mean(F) by %.3g eV/A" % (c, err)
+                err = min(err, raw)
+                what = "%s: collected forces are neither F nor F - mean(F) (nearest differs by %.3g eV/A)" % (c, err)
                 run.violation("create_FORCE_SETS", "%s-forces-wrong" % c, what + "; unit %s -> %s, drift %r" % (
                     FO.NATIVE_UNIT[c], C.get_default_physical_units(c)["force_unit"], phys[0].mean(axis=0).round(4).tolist()), case)
             finally:
@@ -706,6 +705,7 @@ def check_force_collection(run, rng):
                         drift_eV_per_A=phys[0].mean(axis=0).tolist()), limit=10)
     run.cov["force_collection"] = {
         "covered": sorted(status), "result": {c: sorted(v) for c, v in status.items()},
+        "net_force_convention": {c: sorted(v) for c, v in convention.items()},
         "native_units": FO.NATIVE_UNIT,
         "note": "all 16 force parsers are fed synthetic outputs in the program's layout (castep layout from the parser's documentation, "
                 "no castep output in the repository; wien2k in P1 mode; cp2k parser needs no cp2k-input-tools)"}
@@ -853,7 +853,7 @@ def main(run):
         "goes to the verified checkEquiv in Lean (exact rationals). Non-trivial = species interleaved, or positions outside [0,1), or moments, or "
         "a displaced supercell; unit cases: a definition whose normal form has >= 2 symbols. Force collection: for all 16 force parsers the same "
         "physical forces (harmonic model + random net force) in the program's output layout/unit/atom order, grouped and interleaved cell, "
-        "collected by create_FORCE_SETS and compared in eV/Angstrom (see coverage.force_collection). " + U.PRECISION_NOTE)
+        "collected by create_FORCE_SETS and compared in eV/Angstrom; accepted: raw F or F - mean(F), atom by atom (see coverage.force_collection). " + U.PRECISION_NOTE)
     run.cov["trusted_base"] = [
         "Lean 4.33 kernel; Mathlib v4.33; axioms per theorem in coverage.theorems",
         "tools/units2lean.py (ast translator, ~300 lines): every generated definition is re-evaluated in floats against phonopy.units / get_default_physical_units on every run",
